@@ -576,6 +576,50 @@ unsafe fn pino_rent(addr: *mut u8) -> u64 {
     0
 }
 
+/// The Anchor implementation of the four liquidity instructions whose `#[program]` bodies are
+/// `unreachable!()` (the live route is the Pinocchio table): accounts are validated with the
+/// generated `try_accounts`, the public Anchor handler is called and `exit` persists the accounts,
+/// exactly as Anchor's generated dispatcher would. Everything else goes to `whirlpool::entry`.
+fn anchor_dispatch<'info>(program_id: &Pubkey, accounts: &'info [AccountInfo<'info>], data: &[u8]) -> ProgramResult {
+    use anchor_lang::{context::Context, Accounts, AccountsExit, AnchorDeserialize, Bumps, Discriminator};
+    use whirlpool::instruction as wi;
+    use whirlpool::instructions::increase_liquidity::ModifyLiquidity;
+    use whirlpool::instructions::v2::increase_liquidity::ModifyLiquidityV2;
+    if data.len() < 8 {
+        return whirlpool::entry(program_id, accounts, data);
+    }
+    let disc = &data[..8];
+    let mut args = &data[8..];
+    let conv = |e: anchor_lang::error::Error| -> ProgramError { e.into() };
+    let mut reallocs = std::collections::BTreeSet::new();
+    let mut rem: &'info [AccountInfo<'info>] = accounts;
+    if disc == wi::IncreaseLiquidity::DISCRIMINATOR || disc == wi::DecreaseLiquidity::DISCRIMINATOR {
+        let mut bumps = <ModifyLiquidity as Bumps>::Bumps::default();
+        let mut accs = ModifyLiquidity::try_accounts(program_id, &mut rem, &data[8..], &mut bumps, &mut reallocs).map_err(conv)?;
+        if disc == wi::IncreaseLiquidity::DISCRIMINATOR {
+            let a = wi::IncreaseLiquidity::deserialize(&mut args).map_err(|_| ProgramError::InvalidInstructionData)?;
+            whirlpool::instructions::increase_liquidity::handler(Context::new(program_id, &mut accs, rem, bumps), a.liquidity_amount, a.token_max_a, a.token_max_b).map_err(conv)?;
+        } else {
+            let a = wi::DecreaseLiquidity::deserialize(&mut args).map_err(|_| ProgramError::InvalidInstructionData)?;
+            whirlpool::instructions::decrease_liquidity::handler(Context::new(program_id, &mut accs, rem, bumps), a.liquidity_amount, a.token_min_a, a.token_min_b).map_err(conv)?;
+        }
+        return accs.exit(program_id).map_err(conv);
+    }
+    if disc == wi::IncreaseLiquidityV2::DISCRIMINATOR || disc == wi::DecreaseLiquidityV2::DISCRIMINATOR {
+        let mut bumps = <ModifyLiquidityV2 as Bumps>::Bumps::default();
+        let mut accs = ModifyLiquidityV2::try_accounts(program_id, &mut rem, &data[8..], &mut bumps, &mut reallocs).map_err(conv)?;
+        if disc == wi::IncreaseLiquidityV2::DISCRIMINATOR {
+            let a = wi::IncreaseLiquidityV2::deserialize(&mut args).map_err(|_| ProgramError::InvalidInstructionData)?;
+            whirlpool::instructions::v2::increase_liquidity::handler(Context::new(program_id, &mut accs, rem, bumps), a.liquidity_amount, a.token_max_a, a.token_max_b, a.remaining_accounts_info).map_err(conv)?;
+        } else {
+            let a = wi::DecreaseLiquidityV2::deserialize(&mut args).map_err(|_| ProgramError::InvalidInstructionData)?;
+            whirlpool::instructions::v2::decrease_liquidity::handler(Context::new(program_id, &mut accs, rem, bumps), a.liquidity_amount, a.token_min_a, a.token_min_b, a.remaining_accounts_info).map_err(conv)?;
+        }
+        return accs.exit(program_id).map_err(conv);
+    }
+    whirlpool::entry(program_id, accounts, data)
+}
+
 static INIT: Once = Once::new();
 
 /// Install the syscall stubs, host CPI handlers and the containing panic hook (idempotent).
@@ -624,6 +668,8 @@ struct Job {
     order: Vec<usize>,
     data: Vec<u8>,
     clock: Clock,
+    /// run whirlpool through its public Anchor dispatcher `whirlpool::entry` instead of `entrypoint`
+    anchor_route: bool,
     reply: mpsc::Sender<Reply>,
 }
 
@@ -641,7 +687,7 @@ struct Reply {
 }
 
 fn run_job(job: Job) {
-    let Job { program_id, uniq, order, data, clock, reply } = job;
+    let Job { program_id, uniq, order, data, clock, anchor_route, reply } = job;
     REPLY.with(|r| *r.borrow_mut() = Some(reply.clone()));
     // serialise
     let mut buf: Vec<u8> = Vec::with_capacity(64 * 1024);
@@ -729,7 +775,13 @@ fn run_job(job: Job) {
         })
     });
     whirlpool::verif::start();
-    let code = if program_id == whirlpool::ID {
+    let code = if program_id == whirlpool::ID && anchor_route {
+        let (pid, accounts, data) = unsafe { solana_program::entrypoint::deserialize(base) };
+        match anchor_dispatch(pid, &accounts, data) {
+            Ok(()) => 0,
+            Err(e) => u64::from(e),
+        }
+    } else if program_id == whirlpool::ID {
         unsafe { entrypoint(base) }
     } else {
         // any other program (token programs, system) as a top-level instruction: set-up traffic
@@ -851,6 +903,12 @@ impl Svm {
 
     /// Execute one instruction as its own transaction against `bank` without committing.
     pub fn simulate(&mut self, bank: &Bank, ix: &Instruction, signers: &[Pubkey]) -> TxOutcome {
+        self.simulate_route(bank, ix, signers, false)
+    }
+
+    /// Like `simulate`; with `anchor_route` the instruction is dispatched through the public
+    /// `whirlpool::entry` (Anchor) instead of the program's `entrypoint` (Pinocchio table first).
+    pub fn simulate_route(&mut self, bank: &Bank, ix: &Instruction, signers: &[Pubkey], anchor_route: bool) -> TxOutcome {
         let mut uniq: Vec<(Pubkey, bool, bool, Arc<Acct>)> = vec![];
         let mut order: Vec<usize> = vec![];
         for m in &ix.accounts {
@@ -884,6 +942,7 @@ impl Svm {
             order,
             data: ix.data.clone(),
             clock: bank.clock.clone(),
+            anchor_route,
             reply: rtx,
         };
         let w = self.worker();
